@@ -65,6 +65,7 @@ pub struct World<S: MdkStorageProvider> {
     pub reopen: Option<Box<dyn Fn(usize) -> S>>,   // persistent backends: reopen client i's database file
     pub joined: Vec<bool>,                          // clients that are (or were) members; spare clients join later through a welcome
     pub welcomes: BTreeMap<u64, Vec<UnsignedEvent>>, // add-commit event -> welcome rumors it produced
+    pub ret_of: BTreeMap<usize, usize>,              // retention a client was last (re)started with, when it differs from the world's
 }
 
 pub fn id_order_key(id: &EventId) -> u64 {
@@ -117,7 +118,7 @@ impl<S: MdkStorageProvider> World<S> {
             clients[i].mdk.accept_welcome(&w).unwrap();
         }
         let now = nostr::Timestamp::now().as_secs();
-        let mut w = World { clients, gid, events: BTreeMap::new(), sigma: BTreeMap::new(), msg_ids: BTreeMap::new(), admin_mask: admin_mask | 1, base_ts: now - 5000, leave_ev: BTreeMap::new(), retention, reopen: None, joined: (0..n + spare).map(|i| i < n).collect(), welcomes: BTreeMap::new() };
+        let mut w = World { clients, gid, events: BTreeMap::new(), sigma: BTreeMap::new(), msg_ids: BTreeMap::new(), admin_mask: admin_mask | 1, base_ts: now - 5000, leave_ev: BTreeMap::new(), retention, reopen: None, joined: (0..n + spare).map(|i| i < n).collect(), welcomes: BTreeMap::new(), ret_of: BTreeMap::new() };
         let a = w.auth(0);
         w.sigma.insert(a, 0);
         w
@@ -313,7 +314,10 @@ impl<S: MdkStorageProvider> World<S> {
                 let m = n(2) as usize;
                 let Some(re) = self.reopen.as_ref() else { return (t.join(" "), "skip".into()); };
                 let storage = re(m);
-                let cfg = MdkConfig { epoch_snapshot_retention: self.retention, ..Default::default() };
+                // optional 4th token: the retention configured for the new session
+                let ret = if t.len() > 3 { n(3) as usize } else { self.ret_of.get(&m).cloned().unwrap_or(self.retention) };
+                self.ret_of.insert(m, ret);
+                let cfg = MdkConfig { epoch_snapshot_retention: ret, ..Default::default() };
                 let cb = self.clients[m].cb.clone();
                 let mdk = MDK::builder(storage).with_config(cfg).with_callback(cb).build();
                 self.clients[m].mdk = mdk;
